@@ -82,7 +82,7 @@ def in_fault(f, root):
 
 
 def run(ctx):
-    fbs = ctx.facts(['KF'], kinds=('lib', 'probe'), only=r'src/fault/|p_std\.cpp$|p_atomic\.cpp$')
+    fbs = ctx.facts(['KF'], kinds=('lib', 'probe'), only=r'src/fault/|p_std\.cpp$|p_atomic\.cpp$', tests=r'/test/')
     fb = fbs['KF']
     root = ctx.root
     d1 = ctx.rule('D1', 'no fault-layer function calls a denied source of run-to-run variation', minimum=100)
